@@ -53,13 +53,13 @@ CONSTANTS MaxOps,      \* bound on the number of public operations (BFS level)
           Linking      \* TRUE: references between models and evaluations are enumerated
 
 VARIABLES S,      \* algorithm-layer state (expected state when validating a trace)
-          n,      \* number of public operations so far (model checking)
+          nops,   \* number of public operations so far (model checking)
           bad,    \* labels of the C19 predicates that the last transition violated
           gh,     \* ghost: [open, links]
           last,   \* last public operation with its outcome
           hist,   \* history (only when Dump)
           tid, l, viol, pobs   \* trace validation: trace, next event, labels, previous observation
-vars == <<S, n, bad, gh, last, hist, tid, l, viol, pobs>>
+vars == <<S, nops, bad, gh, last, hist, tid, l, viol, pobs>>
 
 Traces == JsonDeserialize(IOEnv.TRACE_FILE)
 
@@ -261,12 +261,14 @@ HandlesFollow(o, g) ==
 \* registered, and a model other than the one operated on keeps its name, except
 \* that a creation / read / rename(rename_old) under its name moves it to
 \* <name>_BAK<k>
+\* ... and when such an operation returns normally the former holder of the name
+\* HAS been moved to a backup name (the new model is not silently given another one).
 NoModelDropped(po, g2, e, o) ==
     /\ g2.open \subseteq Ids(o)
     /\ \A t \in po.models : (t[2] # Subject(e) /\ t[2] \in g2.open) =>
           \E u \in o.models :
              /\ u[2] = t[2]
-             /\ \/ u[1] = t[1]
+             /\ \/ u[1] = t[1] /\ ~(Displacing(e) /\ e.res = "ok" /\ t[1] = Target(e))
                 \/ Displacing(e) /\ t[1] = Target(e) /\ IsBackupOf(u[1], t[1])
 
 CloseRemovesExactlyOne(po, e, o) ==
@@ -294,7 +296,7 @@ Op(op, name, m, t, file, ro, kind) ==
     [op |-> op, name |-> name, m |-> m, t |-> t, file |-> file, ro |-> ro, kind |-> kind]
 
 Init == /\ S = InitState(0, 0)
-        /\ n = 0 /\ bad = {}
+        /\ nops = 0 /\ bad = {}
         /\ gh = [open |-> {}, links |-> {}]
         /\ last = NoOp
         /\ hist = <<>>
@@ -304,14 +306,14 @@ Init == /\ S = InitState(0, 0)
 \* (\E over singleton sets) and the property layer is evaluated on
 \* (observation before, ghost, operation, observation after) of THIS transition.
 Do(o) ==
-    /\ n < MaxOps
+    /\ nops < MaxOps
     /\ \E r \in {Apply(S, o)} :
        \E e \in {[op |-> o.op, name |-> o.name, m |-> o.m, t |-> o.t, file |-> o.file,
                   ro |-> o.ro, kind |-> o.kind, res |-> r.r, new |-> r.id]} :
        \E g2 \in {GhostAfter(gh, e)} :
        \E po \in {Obs(S)} : \E o2 \in {Obs(r.s)} :
           /\ S' = r.s
-          /\ n' = n + 1
+          /\ nops' = nops + 1
           /\ last' = e
           /\ gh' = g2
           /\ bad' = PropLabels(po, gh, g2, e, o2)
@@ -347,7 +349,7 @@ Spec == Init /\ [][Next]_vars
 \* (their last name, definitions, values): no operation is made on a closed
 \* model and nothing in the registry depends on them.
 OpenOnly(f, dflt) == [i \in DOMAIN f |-> IF i \in gh.open THEN f[i] ELSE dflt]
-View == <<n, bad, S.reg, OpenOnly(S.nm, ""), S.mctr, S.bctr, OpenOnly(S.d, 0), OpenOnly(S.v, 0),
+View == <<nops, bad, S.reg, OpenOnly(S.nm, ""), S.mctr, S.bctr, OpenOnly(S.d, 0), OpenOnly(S.v, 0),
           S.into, S.panic, gh>>
 
 \* one INVARIANT per predicate of the property layer
@@ -396,7 +398,7 @@ DriftLabels(r, e, o) ==
        (IF RegistryOp(e) /\ r.r # e.res THEN {"DRIFT:result"} ELSE {})
   \cup (IF r.id # e.new /\ Creates(e) THEN {"DRIFT:newid"} ELSE {})
   \cup (IF {<<n, r.s.reg[n]>> : n \in DOMAIN r.s.reg} # RegOf(o) THEN {"DRIFT:registry"} ELSE {})
-  \cup (IF r.s.cur # o.cur THEN {"DRIFT:cur"} ELSE {})
+  \cup (IF RegistryOp(e) /\ r.s.cur # o.cur THEN {"DRIFT:cur"} ELSE {})
   \cup (IF r.s.panic THEN {"DRIFT:panic"} ELSE {})
 
 TInit ==
@@ -406,7 +408,7 @@ TInit ==
     /\ S = InitState(Traces[tid].hdr.mctr, Traces[tid].hdr.bctr)
     /\ gh = [open |-> {}, links |-> {}]
     /\ pobs = ObsOfPost(Traces[tid].hdr.post)
-    /\ last = NoOp /\ hist = <<>> /\ n = 0 /\ bad = {}
+    /\ last = NoOp /\ hist = <<>> /\ nops = 0 /\ bad = {}
     /\ TLCSet(tid, <<0, {}>>)
 
 TNext ==
@@ -422,11 +424,14 @@ TNext ==
            new   == PropLabels(pobs, gh, g2, e, o) \cup dl
            known == {x[1] : x \in viol}
        IN /\ viol' = viol \cup {<<x, l>> : x \in new \ known}
-          /\ S' = IF dl # {} THEN [r.s EXCEPT !.dead = TRUE] ELSE r.s
+          \* (creating a space makes its model the current one, parent.py 128: which edits
+          \*  do is not modelled, the current model is adopted after an edit)
+          /\ S' = IF dl # {} THEN [r.s EXCEPT !.dead = TRUE]
+                  ELSE IF RegistryOp(e) THEN r.s ELSE [r.s EXCEPT !.cur = o.cur]
           /\ gh' = g2
           /\ pobs' = o
     /\ l' = l + 1
-    /\ UNCHANGED <<tid, last, hist, n, bad>>
+    /\ UNCHANGED <<tid, last, hist, nops, bad>>
 
 TSpec == TInit /\ [][TNext]_vars
 
